@@ -1,6 +1,7 @@
 (* model driver for C02/C07 (AES-GCM).  One case per line:
      M <id> <keyhex> <enc 1|0> <ivhex> <aadhex> <taglen> <datahex> o            one-shot
      M <id> <keyhex> <enc 1|0> <ivhex> <aadhex> <taglen> <datahex> s l1 l2 ..   streaming
+     (V instead of M: the vaes_avx512 policy for keeping the last full block open, defer_vaes)
      Z <id> <keyhex> <enc 1|0> <ivhex> <aadlen> <taglen> <datahex>              one-shot, AAD = aadlen zero bytes
    Output: <id> spec=<out>,<tag16> out=<hex> tag=<hex> ctx=<after init>,<after each update>,<after finalize>
    `spec` is Spec.GCM.gcm_ae_rk / gcm_ad_rk (SP 800-38D) on the whole data; out/tag/ctx are
@@ -15,7 +16,8 @@ let take_drop n l =
 
 let () = iter_lines (fun line ->
   match split_ws line with
-  | "M" :: id :: key :: enc :: iv :: aad :: taglen :: data :: mode :: segs ->
+  | ("M" | "V" as pol) :: id :: key :: enc :: iv :: aad :: taglen :: data :: mode :: segs ->
+    let defer = if pol = "V" then defer_vaes else defer_none in
     let enc = (enc = "1") in
     let rks = key_expansion (bytes_of_hex key) in
     let e = cipher rks in
@@ -32,7 +34,7 @@ let () = iter_lines (fun line ->
     let ctxs = ref [hex_of_bytes (gcm_ctx_bytes !c)] in
     let outs = ref [] in
     List.iter (fun p ->
-      let (c', o) = gcm_update e h enc !c p in
+      let (c', o) = gcm_update e h defer enc !c p in
       c := c'; outs := o :: !outs;
       ctxs := hex_of_bytes (gcm_ctx_bytes c') :: !ctxs) pieces;
     let (cf, tag) = gcm_finalize e h !c tl in
@@ -50,7 +52,7 @@ let () = iter_lines (fun line ->
     let tl = nat_of_int (int_of_string taglen) in
     let c0 = gcm_init h iv [] in
     let c0 = { c0 with aad_length = n_of_hex aadlen } in
-    let (c1, o) = gcm_update e h enc c0 data in
+    let (c1, o) = gcm_update e h defer_none enc c0 data in
     let (_, tag) = gcm_finalize e h c1 tl in
     Printf.printf "%s out=%s tag=%s\n" id (hex_of_bytes o) (hex_of_bytes tag)
   | [] -> ()
